@@ -140,7 +140,7 @@ N_OTHERS = 5
 # insertion-or-assignment (LRI) / insertion, assignment or successful lookup (LRU).  Inserting a
 # new key into a full cache evicts the key whose time is oldest.  No list, no ring.
 
-ACT_NAMES = ('set', 'getitem', 'get', 'setdefault', 'del', 'pop', 'clear', 'update', 'ior', 'in', 'len')
+ACT_NAMES = ('set', 'getitem', 'get', 'setdefault', 'del', 'pop', 'popitem', 'clear', 'update', 'ior', 'in', 'len', 'iter', 'eq', 'ne')
 DEFAULT_DEPTH = 3
 
 
@@ -149,6 +149,8 @@ class Ref:
         self.lru, self.max, self.om = lru, max_size, om
         self.prog, self.depth, self.st = prog, depth, st
         self.ncalls = 0            # on_miss calls made on this cache so far (the callback's own state)
+        self.obs = None            # what the calls made by on_miss returned / raised in the implementation, in order
+        self.nested_fail = None
         self.vals, self.stamp, self.clock = {}, {}, 0
         self.h = self.m = self.s = 0
         self.evictions = 0
@@ -210,40 +212,82 @@ class Ref:
         return False, None, [], None
 
     def act(self, op, depth, calls):
-        """one dict-API call made by on_miss on the cache; -> the class of the exception it raises, or None"""
+        """one dict-API call made by on_miss on the cache; -> the class of the exception it raises, or None.
+        With self.obs (the results the implementation's callback saw, in completion order) the result of the call
+        is compared with what the reference cache answers at that moment."""
         name, a = op[0].lstrip('?'), op[2:]
+        exc, ret = None, ['none']
         if name == 'set':
             self.assign(a[0], a[1])
         elif name in LOOKUPS:
-            found, _v, sub, exc = self.lookup(a[0], depth)
+            dflt = a[1] if len(a) > 1 else 0
+            found, v, sub, lexc = self.lookup(a[0], depth)
             calls.extend(sub)
             if found:
-                return None
-            if exc is not None and exc != 'KeyError':
-                return exc
-            if name == 'getitem':
-                return 'KeyError'
-            self.s += 1
-            if name == 'setdefault':
-                self.assign(a[0], a[1] if len(a) > 1 else 0)
+                ret = ['val', v]
+            elif lexc is not None and lexc != 'KeyError':
+                exc = lexc
+            elif name == 'getitem':
+                exc = 'KeyError'
+            else:
+                self.s += 1
+                ret = ['val', dflt]
+                if name == 'setdefault':
+                    self.assign(a[0], dflt)
         elif name == 'del':
             if a[0] not in self.vals:
-                return 'KeyError'
-            self.remove(a[0])
+                exc = 'KeyError'
+            else:
+                self.remove(a[0])
         elif name == 'pop':
             if a[0] in self.vals:
+                ret = ['val', self.vals[a[0]]]
                 self.remove(a[0])
             elif len(a) < 2:
-                return 'KeyError'
+                exc = 'KeyError'
+            else:
+                ret = ['val', a[1]]
+        elif name == 'popitem':
+            if not self.vals:
+                exc = 'KeyError'
+            else:
+                # which item goes is the implementation's choice: any item of the reference cache is accepted
+                got = self.obs[0] if self.obs else None
+                if got and got[0] == 'item' and self.vals.get(got[1], object()) == got[2]:
+                    k = got[1]
+                else:
+                    k = next(reversed(list(self.vals)))
+                ret = ['item', k, self.vals[k]]
+                self.remove(k)
         elif name == 'clear':
             self.vals.clear()
             self.stamp.clear()
         elif name in ('update', 'ior'):
             for k, v in (dedup(a[1]) if a[0] in DEDUP_KINDS else a[1]):
                 self.assign(k, v)
-        elif name not in ('in', 'len'):
+        elif name == 'in':
+            ret = ['bool', a[0] in self.vals]
+        elif name == 'len':
+            ret = ['nat', len(self.vals)]
+        elif name == 'iter':
+            ret = ['items', sorted([k, v] for k, v in self.vals.items())]
+        elif name in ('eq', 'ne'):
+            same = self.vals == {k: v for k, v in dedup(a[1])}
+            ret = ['bool', same if name == 'eq' else not same]
+        else:
             raise ValueError('unknown act %r' % (op,))
-        return None
+        if self.obs is not None and self.nested_fail is None:
+            exp = ['exc', exc] if exc is not None else ret
+            if not self.obs:
+                self.nested_fail = 'the call %r made by on_miss was not observed' % (op,)
+            else:
+                got = self.obs.pop(0)
+                if got and got[0] == 'items':
+                    got = ['items', sorted(got[1])]
+                if got != exp:
+                    self.nested_fail = ('the call %r made by on_miss gave %r, the reference cache answers %r at that moment'
+                                        % (op, got, exp))
+        return exc
 
 
 class C02(Property):
@@ -257,10 +301,11 @@ class C02(Property):
             '(None, 5, a string, a list)) on an LRI or LRU with max_size 1-5 (8 in thorough; 33-200 in the big family), '
             'on_miss None, k->a*k+b (also returning None), or that function raising KeyError / ValueError for chosen keys, or a '
             'RE-ENTRANT on_miss: a callback that, before it returns / raises, itself calls methods of the cache that is waiting '
-            'for its result (per key a program of set / item get / get / setdefault / del / pop / clear / update / |= / in / len '
+            'for its result (per key a program of set / item get / get / setdefault / del / pop / popitem / clear / update / |= / in / len / iteration / == '
             'calls: stores the key itself, prefetches or drops a neighbour, clears, fills the cache beyond capacity, looks other '
             'absent keys up - nested on_miss calls down to a depth guard of 1-3 -, raises after mutating, wraps some of its calls in '
-            'try / except, keeps state: its value depends on how often it was called on that cache), '
+            'try / except, keeps state: its value depends on how often it was called on that cache; what each of its calls returned or '
+            'raised is recorded and judged against the reference cache at that moment), '
             'constructor values passed as list / dict / iterator / mapping object, over max_size+1..+3 keys (strings, the '
             'aliases 1/1.0/True, or exotic hashables: None, (), \'\', tuples, frozensets, negative and huge ints, bytes), '
             'ended by a probe that inserts max_size (+1 in the scripted, adversarial and half of the random cases) fresh keys '
@@ -269,12 +314,12 @@ class C02(Property):
             'scripted scenarios (falsy on_miss results, stored None, removal of a None-valued newest/oldest key then overflow, '
             'lookups on a not-yet-full LRU, update/|= with exactly the current contents after a reorder, equal contents in a '
             'different dict order, every argument kind overflowing with duplicates, one cache read into another then both '
-            'diverging, keyword arguments overlapping E; plus the two families of the fixed findings: update(**kw) alone, a falsy callable as on_miss; get / setdefault / pop defaults identical to the stored value or to on_miss\'s result), 2160 scripted re-entrant '
-            'on_miss scenarios (13 program kinds x 3 result kinds x every kind of lookup, loading max_size+1 keys, refresh, '
+            'diverging, keyword arguments overlapping E; plus the two families of the fixed findings: update(**kw) alone, a falsy callable as on_miss; get / setdefault / pop defaults identical to the stored value or to on_miss\'s result), 2304 scripted re-entrant '
+            'on_miss scenarios (14 program kinds x 3 result kinds x every kind of lookup, loading max_size+1 keys, refresh, '
             'overflow, copy), 14 (thorough 60) big-'
             'capacity cases with bulk updates of 34-400 pairs, 300 adversarial scripts; (1) exhaustive: all histories of <=2 '
             'calls over a 43-call alphabet on 3 keys x max_size 1-3 x both classes x on_miss none / total / raising, and all '
-            'histories of <=2 calls over a 12-call alphabet x 12 re-entrant on_miss programs x max_size 1-2 (7488 cases); (2) 14k '
+            'histories of <=2 calls over a 12-call alphabet x 13 re-entrant on_miss programs x max_size 1-2 (8112 cases); (2) 14k '
             '(thorough 60k) sampled 3-5-call histories on pre-filled caches; (3) 1500 (6000) adversarial scripts of 13 kinds; '
             '(4) 8000 (105000) random histories of 4-40 (thorough up to 300) calls (45% of those with an on_miss, and 40% of the '
             'adversarial scripts with one, make it re-entrant with random programs). 3 cases of 4 run on the pointer-level Lean '
@@ -674,6 +719,8 @@ class C02(Property):
             ('fill', table(lambda k: [['update', 0, 'list', [[j, 1 + j] for j in range(nk)], []]])),
             ('self_hit', table(lambda k: [['set', 0, k, 9], ['getitem', 0, k], ['get', 0, k, 9]])),
             ('guarded', table(lambda k: [['?del', 0, n1(k)], ['set', 0, k, 9], ['?getitem', 0, n2(k)], ['?pop', 0, n2(k)]])),   # try / except around its calls
+            ('observe', table(lambda k: [['in', 0, k], ['len', 0], ['iter', 0], ['?popitem', 0], ['eq', 0, 'dict', [[n1(k), 4]]],
+                                         ['set', 0, n1(k), 4], ['in', 0, n1(k)], ['?getitem', 0, n1(k)], ['popitem', 0]])),   # looks at the cache in between
             ('only0', {'0': [['set', 0, 0, 9], ['set', 0, 1, 8]]}),              # other keys: an ordinary loader
             ('empty', {}),                                                       # no acts at all: must equal the plain on_miss
         ]
@@ -750,7 +797,8 @@ class C02(Property):
                         if acts[-1][2] == 'dict':
                             acts[-1][3] = dedup(acts[-1][3])
                     else:
-                        acts.append(rng.choice((['in', 0, t], ['len', 0])))
+                        acts.append(rng.choice((['in', 0, t], ['len', 0], ['popitem', 0], ['iter', 0],
+                                                [rng.choice(('eq', 'ne')), 0, 'dict', self.rand_pairs(rng, nk, True, 0, 2)])))
                     if rng.random() < 0.25:
                         acts[-1][0] = '?' + acts[-1][0]       # the callback catches whatever this call raises
                 prog[str(k)] = acts
@@ -948,15 +996,15 @@ class C02(Property):
                     nest[0] += 1
                     try:
                         for j, act in enumerate(prog.get(str(k), ())):
-                            if act[0].startswith('?'):
-                                try:
-                                    do(cur[1] + 7 * (j + 1), [act[0][1:]] + list(act[1:]), cur[0])
-                                except CaseTimeout:
+                            guarded = act[0].startswith('?')
+                            try:
+                                nested.append(do(cur[1] + 7 * (j + 1), [act[0].lstrip('?')] + list(act[1:]), cur[0]))
+                            except CaseTimeout:
+                                raise
+                            except Exception as e:
+                                nested.append(['exc', exc_name(e)])
+                                if not guarded:
                                     raise
-                                except Exception:
-                                    pass
-                            else:
-                                do(cur[1] + 7 * (j + 1), act, cur[0])
                     finally:
                         nest[0] -= 1
                 if k in ke:
@@ -968,6 +1016,7 @@ class C02(Property):
                 om = FalsyCallable(om)
         recs = []
         world = []
+        nested = []                # results of the calls on_miss made during the current step, in completion order
         cur = [None, 0]            # the cache the running top-level call is made on, and its step number
         nk = case['nk']
 
@@ -1094,6 +1143,7 @@ class C02(Property):
                 if world:
                     for si, op in enumerate(case['ops']):
                         del calls[:]
+                        del nested[:]
                         rec = {}
                         try:
                             rec['ret'] = do(si, op)
@@ -1102,6 +1152,8 @@ class C02(Property):
                         except Exception as e:
                             rec['exc'] = exc_name(e)
                         rec['calls'] = list(calls)
+                        if case.get('prog') is not None and case['om'] is not None:
+                            rec['nested'] = list(nested)
                         rec['dumps'] = [dump(c) for c in world]
                         recs.append(rec)
         except CaseTimeout:
@@ -1212,6 +1264,8 @@ class C02(Property):
             r = refs[i]
             ctx['si'] = si
             what = 'op %d %r' % (si, op)
+            r.nested_fail = None
+            r.obs = list(obs[si + 1]['nested']) if judge and si + 1 < len(obs) and 'nested' in obs[si + 1] else None
             exp_exc = None
             exp_ret = ['none']
             exp_calls = []
@@ -1349,6 +1403,9 @@ class C02(Property):
             if rec['calls'] != exp_calls:
                 return F('on_miss', '%s: on_miss called with %r, expected %r (called exactly for lookups of absent keys)'
                                % (what, rec['calls'], exp_calls))
+            if r.nested_fail or r.obs:
+                return F('nested', '%s: %s' % (what, r.nested_fail or 'on_miss made calls the reference does not: %r' % (r.obs,)))
+            r.obs = None
             if name == 'copy' and 'exc' not in rec:
                 n = r.clone()
                 if len(rec['dumps']) == len(refs) + 1 and 'exc' not in rec['dumps'][-1]:
